@@ -1,0 +1,314 @@
+//go:build verif
+// +build verif
+
+package zenodb
+
+// Verification hooks (build tag "verif"). Nothing in this file is compiled
+// into a normal build; verif_nohooks.go supplies empty stand-ins. The hooks
+// only observe progress (counters), expose the virtual clock, shorten the
+// follower start-up timers and provide named crash points for a child process.
+
+import (
+	"encoding/binary"
+	"fmt"
+	"os"
+	"strconv"
+	"strings"
+	"sync"
+	"sync/atomic"
+	"syscall"
+	"time"
+
+	"github.com/getlantern/wal"
+	"github.com/getlantern/zenodb/common"
+)
+
+// VerifMarkerMax is the largest UnixNano timestamp that is treated as a
+// barrier marker by the progress hooks.
+const VerifMarkerMax = int64(1000000000)
+
+type verifTableState struct {
+	started, done int64
+	marker        int64
+	mx            sync.Mutex
+	lastDone      map[int]string
+}
+
+type verifRSState struct {
+	sent, applied             int64
+	fieldsSent, fieldsApplied int64
+}
+
+type verifDBState struct {
+	mx          sync.Mutex
+	startCh     chan struct{}
+	startOnce   sync.Once
+	subscribed  int64
+	joins       int64
+	dispatched  map[string]string
+	dispMarker  map[string]int64
+	dispCount   int64
+	submitted   map[common.FollowerID]string
+	submitCount map[common.FollowerID]int64
+}
+
+var (
+	verifTables sync.Map // *table -> *verifTableState
+	verifRSs    sync.Map // *rowStore -> *verifRSState
+	verifDBs    sync.Map // *DB -> *verifDBState
+
+	verifPointMx    sync.Mutex
+	verifPointHits  = map[string]int{}
+	verifCrashName  string
+	verifCrashN     int
+	verifCrashInit  sync.Once
+	verifFastFollow int32
+)
+
+func verifTS(t *table) *verifTableState {
+	if s, ok := verifTables.Load(t); ok {
+		return s.(*verifTableState)
+	}
+	s, _ := verifTables.LoadOrStore(t, &verifTableState{lastDone: map[int]string{}})
+	return s.(*verifTableState)
+}
+
+func verifRS(rs *rowStore) *verifRSState {
+	if s, ok := verifRSs.Load(rs); ok {
+		return s.(*verifRSState)
+	}
+	s, _ := verifRSs.LoadOrStore(rs, &verifRSState{})
+	return s.(*verifRSState)
+}
+
+func verifDB(db *DB) *verifDBState {
+	if s, ok := verifDBs.Load(db); ok {
+		return s.(*verifDBState)
+	}
+	s, _ := verifDBs.LoadOrStore(db, &verifDBState{
+		startCh:     make(chan struct{}),
+		dispatched:  map[string]string{},
+		dispMarker:  map[string]int64{},
+		submitted:   map[common.FollowerID]string{},
+		submitCount: map[common.FollowerID]int64{},
+	})
+	return s.(*verifDBState)
+}
+
+func verifMarkerOf(data []byte) int64 {
+	if len(data) < 8 {
+		return 0
+	}
+	ts := int64(binary.BigEndian.Uint64(data))
+	if ts > 0 && ts < VerifMarkerMax {
+		return ts
+	}
+	return 0
+}
+
+func verifEntryStart(t *table) {
+	atomic.AddInt64(&verifTS(t).started, 1)
+}
+
+func verifEntryDone(t *table, data []byte, offset wal.Offset, source int) {
+	s := verifTS(t)
+	s.mx.Lock()
+	s.lastDone[source] = string(offset)
+	if m := verifMarkerOf(data); m > s.marker {
+		s.marker = m
+	}
+	s.mx.Unlock()
+	atomic.AddInt64(&s.done, 1)
+}
+
+func verifRSSent(rs *rowStore)          { atomic.AddInt64(&verifRS(rs).sent, 1) }
+func verifRSApplied(rs *rowStore)       { atomic.AddInt64(&verifRS(rs).applied, 1) }
+func verifFieldsSent(rs *rowStore)      { atomic.AddInt64(&verifRS(rs).fieldsSent, 1) }
+func verifFieldsApplied(rs *rowStore)   { atomic.AddInt64(&verifRS(rs).fieldsApplied, 1) }
+func verifFast() bool                   { return atomic.LoadInt32(&verifFastFollow) == 1 }
+func verifStartCh(db *DB) chan struct{} { return verifDB(db).startCh }
+func verifSubscribed(db *DB)            { atomic.AddInt64(&verifDB(db).subscribed, 1) }
+
+func verifJoined(db *DB, stream string) {
+	s := verifDB(db)
+	s.mx.Lock()
+	s.joins++
+	delete(s.dispatched, stream)
+	delete(s.dispMarker, stream)
+	s.mx.Unlock()
+}
+
+func verifSubmitted(db *DB, id common.FollowerID, offset wal.Offset) {
+	s := verifDB(db)
+	s.mx.Lock()
+	s.submitted[id] = string(offset)
+	s.submitCount[id]++
+	s.mx.Unlock()
+}
+
+func verifDispatched(db *DB, stream string, data []byte, offset wal.Offset) {
+	s := verifDB(db)
+	s.mx.Lock()
+	s.dispatched[stream] = string(offset)
+	if m := verifMarkerOf(data); m > s.dispMarker[stream] {
+		s.dispMarker[stream] = m
+	}
+	s.dispCount++
+	s.mx.Unlock()
+}
+
+// verifPoint is a named crash point. When the environment variable
+// VERIF_CRASH_AT is "name:n", the n-th time the named point is reached the
+// process prints a marker line and kills itself with SIGKILL (no deferred
+// functions, no flushing).
+func verifPoint(name string) {
+	verifCrashInit.Do(func() {
+		spec := os.Getenv("VERIF_CRASH_AT")
+		if i := strings.LastIndex(spec, ":"); i > 0 {
+			verifCrashName = spec[:i]
+			verifCrashN, _ = strconv.Atoi(spec[i+1:])
+		}
+	})
+	verifPointMx.Lock()
+	verifPointHits[name]++
+	n := verifPointHits[name]
+	verifPointMx.Unlock()
+	if verifCrashName == name && verifCrashN == n {
+		fmt.Fprintf(os.Stdout, "\nVERIF-CRASH %s %d\n", name, n)
+		os.Stdout.Sync()
+		syscall.Kill(os.Getpid(), syscall.SIGKILL)
+		select {}
+	}
+}
+
+// VerifPointHits returns how often each crash point has been reached so far.
+func VerifPointHits() map[string]int {
+	verifPointMx.Lock()
+	defer verifPointMx.Unlock()
+	out := make(map[string]int, len(verifPointHits))
+	for k, v := range verifPointHits {
+		out[k] = v
+	}
+	return out
+}
+
+// VerifSetFastFollow shortens the follower/leader batching sleeps.
+func VerifSetFastFollow(on bool) {
+	v := int32(0)
+	if on {
+		v = 1
+	}
+	atomic.StoreInt32(&verifFastFollow, v)
+}
+
+// VerifAdvanceClock advances the database clock (virtual clocks only move
+// forward).
+func (db *DB) VerifAdvanceClock(t time.Time) { db.clock.Advance(t) }
+
+// VerifNow returns the database clock.
+func (db *DB) VerifNow() time.Time { return db.clock.Now() }
+
+// VerifTableProgress is a snapshot of a table's ingestion counters.
+type VerifTableProgress struct {
+	Name                      string
+	Stream                    string
+	Started, Done             int64
+	Sent, Applied             int64
+	FieldsSent, FieldsApplied int64
+	Marker                    int64
+	LastDone                  map[int]wal.Offset
+}
+
+// Quiet reports whether nothing is in flight inside the table.
+func (p VerifTableProgress) Quiet() bool {
+	return p.Started == p.Done && p.Sent == p.Applied && p.FieldsSent == p.FieldsApplied
+}
+
+// VerifProgress returns the progress of all non-virtual tables.
+func (db *DB) VerifProgress() []VerifTableProgress {
+	db.tablesMutex.RLock()
+	tables := make([]*table, 0, len(db.orderedTables))
+	for _, t := range db.orderedTables {
+		if !t.Virtual && t.rowStore != nil {
+			tables = append(tables, t)
+		}
+	}
+	db.tablesMutex.RUnlock()
+	out := make([]VerifTableProgress, 0, len(tables))
+	for _, t := range tables {
+		ts := verifTS(t)
+		rs := verifRS(t.rowStore)
+		p := VerifTableProgress{
+			Name:          t.Name,
+			Stream:        t.From,
+			Applied:       atomic.LoadInt64(&rs.applied),
+			Sent:          atomic.LoadInt64(&rs.sent),
+			FieldsApplied: atomic.LoadInt64(&rs.fieldsApplied),
+			FieldsSent:    atomic.LoadInt64(&rs.fieldsSent),
+			Done:          atomic.LoadInt64(&ts.done),
+			Started:       atomic.LoadInt64(&ts.started),
+			LastDone:      map[int]wal.Offset{},
+		}
+		ts.mx.Lock()
+		p.Marker = ts.marker
+		for k, v := range ts.lastDone {
+			p.LastDone[k] = wal.Offset(v)
+		}
+		ts.mx.Unlock()
+		out = append(out, p)
+	}
+	return out
+}
+
+// VerifStartFollowing lets a follower leave its start-up wait once n tables
+// have subscribed; it blocks until they have.
+func (db *DB) VerifStartFollowing(n int, timeout time.Duration) bool {
+	s := verifDB(db)
+	deadline := time.Now().Add(timeout)
+	for atomic.LoadInt64(&s.subscribed) < int64(n) {
+		if time.Now().After(deadline) {
+			return false
+		}
+		time.Sleep(200 * time.Microsecond)
+	}
+	s.startOnce.Do(func() { close(s.startCh) })
+	return true
+}
+
+// VerifLeaderProgress is a snapshot of what a leader has dispatched.
+type VerifLeaderProgress struct {
+	Joins       int64
+	DispCount   int64
+	Dispatched  map[string]wal.Offset
+	DispMarker  map[string]int64
+	Submitted   map[common.FollowerID]wal.Offset
+	SubmitCount map[common.FollowerID]int64
+}
+
+// VerifLeader returns the leader-side replication progress.
+func (db *DB) VerifLeader() VerifLeaderProgress {
+	s := verifDB(db)
+	s.mx.Lock()
+	defer s.mx.Unlock()
+	p := VerifLeaderProgress{
+		Joins:       s.joins,
+		DispCount:   s.dispCount,
+		Dispatched:  map[string]wal.Offset{},
+		DispMarker:  map[string]int64{},
+		Submitted:   map[common.FollowerID]wal.Offset{},
+		SubmitCount: map[common.FollowerID]int64{},
+	}
+	for k, v := range s.dispatched {
+		p.Dispatched[k] = wal.Offset(v)
+	}
+	for k, v := range s.dispMarker {
+		p.DispMarker[k] = v
+	}
+	for k, v := range s.submitted {
+		p.Submitted[k] = wal.Offset(v)
+	}
+	for k, v := range s.submitCount {
+		p.SubmitCount[k] = v
+	}
+	return p
+}
